@@ -11,12 +11,14 @@ class MultiIndexConverter(Transformer):
     def __init__(self):
         super().__init__()
         self.modified_dimensions = []
+        self.feature_dimensions = []
         self.coords_from_fit = {}
         self.coords_from_transform = {}
 
     def get_serialization_attrs(self) -> dict:
         return dict(
             modified_dimensions=self.modified_dimensions,
+            feature_dimensions=self.feature_dimensions,
             coords_from_fit=self.coords_from_fit,
             coords_from_transform=self.coords_from_transform,
         )
@@ -34,6 +36,8 @@ class MultiIndexConverter(Transformer):
             if isinstance(index, pd.MultiIndex):
                 self.coords_from_fit[dim] = X.coords[dim]
                 self.modified_dimensions.append(dim)
+                if feature_dims is not None and dim in feature_dims:
+                    self.feature_dimensions.append(dim)
 
         return self
 
@@ -46,6 +50,14 @@ class MultiIndexConverter(Transformer):
             self.coords_from_transform[dim] = X_transformed.coords[dim]
 
             index = X_transformed.indexes[dim]
+            # Feature labels must be those seen at fit (and in the same order);
+            # they are replaced by positions below, so nothing downstream could tell
+            if dim in self.feature_dimensions and not index.equals(
+                self.coords_from_fit[dim].to_index()
+            ):
+                raise ValueError(
+                    "Data to be transformed has different coordinates than the data used to fit."
+                )
             X_transformed = X_transformed.drop_vars(dim)
             X_transformed.coords[dim] = range(index.size)
 
